@@ -67,7 +67,64 @@ def mut_reference(F, gamma, X, events):
     return (X[0] + diffs, diffs, Fs), None
 
 
+def mut_property_oracle(F, gamma, X, V, d, tag="C10", scripted=False):
+    """the property itself, independent of HOW and WHEN the implementation draws its random numbers: mutant - base is a sum of parent
+    differences scaled by factors inside [lo * (1 - gamma/2), hi * (1 + gamma/2)] (one factor per mutant and difference vector when no
+    jitter is configured), exactly the formula for scalar F without jitter"""
+    n_par, n, v = X.shape
+    K = (n_par - 1) // 2
+    lo, hi = (F if isinstance(F, (list, tuple)) else ((0.0, 1.0) if F is None else (F, F)))
+    lo, hi = float(min(lo, hi)), float(max(lo, hi))
+    if V.shape != (n, v):
+        return "%s-formula: mutants have shape %s, expected %s" % (tag, V.shape, (n, v))
+    D = [np.asarray(X[2 * p + 1], dtype=float) - np.asarray(X[2 * p + 2], dtype=float) for p in range(K)]
+    R = V - np.asarray(X[0], dtype=float)
+    if d is not None and not np.allclose(d, R, rtol=0, atol=1e-9 * (1 + np.abs(R).max())):
+        return "%s-diffs: returned differentials differ from mutant - base" % tag
+    g = 0.0 if gamma is None else abs(float(gamma)) / 2
+    a, b = lo * (1 - g) if lo >= 0 else lo * (1 + g), hi * (1 + g) if hi >= 0 else hi * (1 - g)
+    tol = 1e-9 * (1 + np.abs(X).max()) * (1 + max(abs(a), abs(b)))
+    if lo == hi and gamma is None:
+        ref = lo * sum(D) if K else np.zeros((n, v))
+        if not np.allclose(R, ref, rtol=0, atol=tol):
+            return "%s-formula: scalar F, no jitter: mutants differ from base + F * sum of differences: max dev %r" % (tag, float(np.abs(R - ref).max()))
+        return None
+    # every coordinate: R must lie in the interval spanned by factors in [a, b]
+    lows = sum(np.minimum(a * Dk, b * Dk) for Dk in D); highs = sum(np.maximum(a * Dk, b * Dk) for Dk in D)
+    if np.any(R < lows - tol) or np.any(R > highs + tol):
+        i, j = np.argwhere((R < lows - tol) | (R > highs + tol))[0]
+        return "%s-range: mutant (%d,%d): mutant - base = %r cannot be written with scale factors in [%r, %r] (differences %s)" % (
+            tag, i, j, float(R[i, j]), a, b, [float(Dk[i, j]) for Dk in D])
+    if gamma is None and K >= 2 and v >= K:
+        # no jitter: the K factors of a mutant can be read off when its difference vectors are linearly independent
+        shared = 0; solved = 0
+        for i in range(n):
+            A = np.array([Dk[i] for Dk in D]).T                      # v x K
+            if np.linalg.matrix_rank(A, tol=1e-6 * (1 + np.abs(A).max())) < K:
+                continue
+            f, *_ = np.linalg.lstsq(A, R[i], rcond=None)
+            if np.abs(A @ f - R[i]).max() > 1e-6 * (1 + np.abs(R[i]).max()):
+                return "%s-formula: no jitter, but mutant %d - base is not a combination of its difference vectors with one factor each" % (tag, i)
+            if f.min() < a - 1e-6 * (1 + abs(a)) or f.max() > b + 1e-6 * (1 + abs(b)):
+                return "%s-range: mutant %d uses scale factors %s outside [%r, %r]" % (tag, i, f.tolist(), a, b)
+            solved += 1
+            if f.max() - f.min() <= 1e-9 * (1 + abs(f).max()):
+                shared += 1
+        if lo < hi and not scripted and solved >= 4 and shared == solved:
+            return "%s-shared: F is dithered from [%r, %r], yet all %d mutants use ONE value for all of their %d difference vectors (not one value per mutant and difference vector)" % (tag, lo, hi, solved, K)
+    if gamma is None and K == 1:
+        # one factor per mutant: all coordinates of a row share it
+        for i in range(n):
+            nz = np.abs(D[0][i]) > 1e-6 * (1 + np.abs(D[0][i]).max())
+            if nz.sum() >= 2:
+                f = R[i][nz] / D[0][i][nz]
+                if f.max() - f.min() > 1e-6 * (1 + abs(f).max()):
+                    return "%s-formula: no jitter, but the coordinates of mutant %d imply different scale factors %s" % (tag, i, f.tolist())
+    return None
+
+
 def mut_oracle(F, gamma, X, events, V, d, tag="C10"):
+    """draw-protocol reference (which draw feeds which factor): part of the correspondence, not of the property"""
     ref, msg = mut_reference(F, gamma, X, events)
     if msg:
         return msg
@@ -184,12 +241,16 @@ class C10(Check):
             return None
         X = np.array([decarr(m, 2) for m in case["X"]])
         F = tuple(case["F"]) if isinstance(case["F"], list) else case["F"]
-        return mut_oracle(F, case["gamma"], X, dec_events(obs["events"]), decarr(obs["V"], 2), None if obs["d"] is None else decarr(obs["d"], 2))
+        return mut_property_oracle(F, case["gamma"], X, decarr(obs["V"], 2), None if obs["d"] is None else decarr(obs["d"], 2), scripted="rand_values" in case)
 
     def coq(self, case, obs):
         if case["api"] == "variant":
             from harness.c01 import variant_term
             return variant_term(case, obs, bounds=False)
+        X = np.array([decarr(m, 2) for m in case["X"]])
+        F = tuple(case["F"]) if isinstance(case["F"], list) else case["F"]
+        if mut_oracle(F, case["gamma"], X, dec_events(obs["events"]), decarr(obs["V"], 2), None if obs["d"] is None else decarr(obs["d"], 2)):
+            return "false"       # the draws are not consumed the way the model consumes them: a correspondence break, not a property verdict
         return mut_term(case, obs)
 
     def nontrivial(self, case, obs):
